@@ -12,6 +12,36 @@ theorem ofU8_toU8 (l : List B) : ofU8 (toU8 l) = l := by
   apply List.map_congr_left
   intro a _; rfl
 
+/-- for a scalar value that fits, `utf8_put_char` stores its well-formed sequence -/
+theorem putChar_wf (room : Nat) (c : BitVec 32) (hs : isScalar c.toNat) (hr : encLen c.toNat ≤ room) :
+    ∃ bytes n, putChar room c = (true, n, bytes) ∧ WF bytes ∧ decode bytes = c.toNat := by
+  unfold isScalar at hs
+  by_cases h1 : c.toNat < 0x80
+  · have e : encLen c.toNat = 1 := by unfold encLen; rw [if_pos h1]
+    rw [e] at hr
+    refine ⟨_, _, pc1 room c h1 hr, ?_, ?_⟩
+    · unfold WF wf1
+      simp only [BitVec.le_def]
+      rw [lo8_self c (by omega)]
+      have : (0x7F#8).toNat = 127 := by decide
+      omega
+    · unfold decode cp1; exact lo8_self c (by omega)
+  · by_cases h2 : c.toNat < 0x800
+    · have e : encLen c.toNat = 2 := by unfold encLen; rw [if_neg h1, if_pos h2]
+      rw [e] at hr
+      have ok := enc2_ok c (by omega) h2
+      exact ⟨_, _, pc2 room c (by omega) h2 hr, ok.1, ok.2⟩
+    · by_cases h3 : c.toNat < 0x10000
+      · have e : encLen c.toNat = 3 := by unfold encLen; rw [if_neg h1, if_neg h2, if_pos h3]
+        rw [e] at hr
+        have hs' : c.toNat < 0xD800 ∨ 0xDFFF < c.toNat := by omega
+        have ok := enc3_ok c (by omega) h3 hs'
+        exact ⟨_, _, pc3 room c (by omega) h3 hs' hr, ok.1, ok.2⟩
+      · have e : encLen c.toNat = 4 := by unfold encLen; rw [if_neg h1, if_neg h2, if_neg h3]
+        rw [e] at hr
+        have ok := enc4_ok c (by omega) (by omega)
+        exact ⟨_, _, pc4 room c (by omega) (by omega) hr, ok.1, ok.2⟩
+
 /-- bytes stored by `utf8_put_char` for a non-zero value are well-formed UTF-8 (or nothing) -/
 theorem putCharU_wfs (room c : Nat) (hc : c ≠ 0) (hlt : c < 2 ^ 32) (hok : (putCharU room c).1 = true) :
     WFS (putCharU room c).2.2 := by
@@ -27,7 +57,7 @@ theorem putCharU_wfs (room c : Nat) (hc : c ≠ 0) (hlt : c < 2 ^ 32) (hok : (pu
       have := (pc_false_iff room (BitVec.ofNat 32 c)).mpr ⟨by
         unfold isScalar at hs; omega, hlt'⟩
       rw [this] at hok; cases hok
-    obtain ⟨bytes, e, _, _, hwf, hdec⟩ := UsualProps.C11.putChar_scalar room _ hs hroom
+    obtain ⟨bytes, nn, e, hwf, hdec⟩ := putChar_wf room _ hs hroom
     rw [e]
     simp only
     have := WFString_cons_chunk bytes [] hwf (by
